@@ -140,3 +140,82 @@ def buffer_stream(w):
         exp = [IndiMessage.from_string(m) for m in want]
         return {"reproduced": got != exp, "detail": "delivered %d message(s), expected %d" % (len(got), len(exp))}
     return {"reproduced": False, "detail": "delivered %d message(s)" % len(got)}
+
+
+@kind("buffer.fragmentation_corpus")
+def fragmentation_corpus(w):
+    """Bounded stand-in for the whole-stream clause of C02 (labelled bounded): streams of 1..3
+    well-formed messages in several XML spellings x every 1- and 2-cut partition (short streams),
+    character-by-character, random k-cuts x threshold in {max message length, 2048, disabled};
+    oracle: exactly the messages sent, once, in order, each no later than the processing call that
+    follows arrival of its last character."""
+    import random
+    import itertools
+    from indi.transport.buffer import Buffer
+    from indi.message import IndiMessage
+    rnd = random.Random(w.get("seed", 0))
+    base = _corpus_messages()
+    spell = lambda m: [m, '<?xml version="1.0"?>\n' + m + "\n", m.replace('"', "'") if "'" not in m and "&gt;" not in m else m, "\n  " + m + "\n"]
+    cases, failures = 0, []
+
+    def run(pieces, texts, th, bounds):
+        b = Buffer()
+        b.max_buffer_size_before_frontal_cleanup = th
+        got, when = [], []
+        steps = [0]
+        fed = 0
+        for p in pieces:
+            b.append(p)
+            fed += len(p)
+
+            def cb(m):
+                steps[0] += 1
+                if steps[0] > 5000:
+                    raise Watchdog()
+                got.append(m)
+                when.append(fed)
+            b.process(cb)
+        want = [IndiMessage.from_string(t) for t in texts]
+        if got != want:
+            return "delivered %d message(s), sent %d" % (len(got), len(want))
+        for k, endpos in enumerate(bounds):
+            # first piece boundary at or after the message's last character
+            first = min(x for x in itertools.accumulate(len(p) for p in pieces) if x >= endpos)
+            if when[k] > first:
+                return "message %d delivered late (after %d characters, complete at %d)" % (k, when[k], endpos)
+        return None
+    budget = w.get("n", 60)
+    for it in range(budget):
+        k = rnd.randint(1, 3)
+        texts = [rnd.choice(base) for _ in range(k)]
+        spelled = [rnd.choice(spell(t)) for t in texts]
+        stream = "".join(spelled)
+        bounds, pos = [], 0
+        for s_, t in zip(spelled, texts):
+            core_end = pos + s_.rstrip().__len__() if s_.rstrip().endswith(">") else pos + len(s_)
+            bounds.append(pos + len(s_.rstrip("\n ")))
+            pos += len(s_)
+        ths = [max(len(s) for s in spelled), 2048, None]
+        n = len(stream)
+        partitions = [[stream]] + [[stream[:a], stream[a:]] for a in range(1, n)]
+        if n <= 90:
+            partitions += [[stream[:a], stream[a:b], stream[b:]] for a in range(1, n) for b in range(a + 1, n, 3)]
+        partitions.append(list(stream))
+        for _ in range(5):
+            cuts = sorted(rnd.sample(range(1, n), min(n - 1, rnd.randint(1, 6))))
+            partitions.append([stream[a:b] for a, b in zip([0] + cuts, cuts + [n])])
+        for th in ths:
+            for pieces in partitions:
+                cases += 1
+                try:
+                    err = run(pieces, texts, th, bounds)
+                except Watchdog:
+                    err = "does not terminate"
+                except Exception as e:
+                    err = "raised %r" % (e,)
+                if err:
+                    failures.append({"detail": err, "reproduced": True,
+                                     "witness": {"replay_kind": "buffer.stream", "pieces": pieces, "threshold": th, "expect": texts}})
+                    if len(failures) >= 3:
+                        return {"cases": cases, "failures": failures}
+    return {"cases": cases, "failures": failures}
